@@ -30,9 +30,13 @@ def active():
     return E._CUR[0] is not None
 
 
+ZERO = Sym()      # shared immutable symbolic zero (object arrays allocated by the proxied np.zeros hold it, so that
+                  # NumPy ufuncs that dispatch to methods -- np.sqrt, np.conj -- work on every element)
+
+
 def objzeros(shape):
     a = np.empty(shape, dtype=object)
-    a.fill(0)
+    a.fill(ZERO)
     return a
 
 
